@@ -1336,6 +1336,48 @@ def gen_floor_cyclechange(rng, idx, big=False):
 FAMILIES['floork'] = gen_floor_cyclechange
 
 
+def gen_floor_values(rng, idx, big=False):
+    """Value changes at every station INCLUDING the sinks: receive-part callbacks (table-driven: add value, set quality,
+    set cycle time, one-shot offset) on handlers, machines, buffers and on the sinks themselves (final inspection that
+    marks a part up or down the moment it is received), finish callbacks on machines, part values of both signs,
+    single parts and batches, collecting and non-collecting sinks with and without a cycle time."""
+    L = _hdr(rng, idx)
+    B = FloorBuilder(rng)
+    batches = rng.random() < 0.2
+
+    def vcb():
+        return f'{rng.choice(["-", "-", "-", "4"])}:{rng.choice([0, 0, 0, 2])}:{rng.choice([-3, -1, 1, 2, 5])}:{rng.choice(["-", "-", "0", "2"])}'
+    prev = [B.dev('source', cyc=rng.choice([2, 4, 8]), budget=rng.choice(['inf', '3', '6']), pval=rng.choice([0, 5, 7, -4]),
+                  pqual=rng.choice([1, 3]), batchof=(rng.choice([2, 3]) if batches else 0))
+            for _ in range(rng.choice([1, 1, 2]))]
+    for _ in range(rng.choice([0, 1, 1, 2])):
+        kind = rng.choice(['handler', 'processor', 'processor', 'buffer'])
+        kw = dict(up=','.join(map(str, prev)))
+        if kind == 'buffer':
+            kw.update(cap=rng.choice(['inf', '2', '4']), delay=rng.choice([0, 4]))
+        else:
+            kw['cyc'] = rng.choice([0, 2, 4, 8])
+        if rng.random() < 0.5:
+            kw['recvcb'] = ','.join(vcb() for _ in range(rng.choice([1, 1, 2])))
+        if kind == 'processor' and rng.random() < 0.4:
+            kw['fincb'] = vcb()
+        prev = [B.dev(kind, **kw)]
+    for j in range(rng.choice([1, 1, 2])):
+        kw = dict(up=','.join(map(str, prev)), cyc=rng.choice([0, 0, 4, 8]), collect=rng.choice([0, 1]))
+        if rng.random() < 0.75:
+            kw['recvcb'] = ','.join(vcb() for _ in range(rng.choice([1, 1, 2])))
+        B.dev('sink', **kw)
+    L += B.L
+    L.append(['run', str(rng.choice([48, 64, 96]))])
+    if rng.random() < 0.3:
+        L.append(['run', str(rng.choice([8, 24]))])
+    L.append(['end'])
+    return L
+
+
+FAMILIES['floorv'] = gen_floor_values
+
+
 def gen_floor_nestbat(rng, idx, big=False):
     """corpus-only family (harness/corpus/floorn): nested groups whose batches cross group boundaries
     (known finding F14); nothing is generated"""
